@@ -112,7 +112,10 @@ def _attr_repr(v):
 def static_snapshot(w):
     """flags and attributes that must be bit-identical"""
     snap = {'training': {n: m.training for n, m in w.named_modules()}, 'requires_grad': {n: p.requires_grad for n, p in w.named_parameters()},
-            'state_keys': sorted(w.state_dict().keys())}
+            'state_keys': sorted(w.state_dict().keys()),
+            # whether each buffer (sampled selection coefficients among them) is still connected to the autograd graph: "the search can
+            # continue afterwards exactly as if they had not been called" includes the gradient of the next cost evaluation
+            'buffer_grad': {f'{n}.{bn}': bool(b.requires_grad) for n, m in w.named_modules() for bn, b in m._buffers.items() if isinstance(b, torch.Tensor)}}
     attrs = {}
     for n, m in w.named_modules():
         if isinstance(m, (nn.Conv1d, nn.Conv2d, nn.Linear, nn.BatchNorm1d, nn.BatchNorm2d)):
@@ -133,7 +136,7 @@ def static_diff(a, b):
     # attributes that existed before must keep their values
     b = dict(b)
     b['attrs'] = {n: {k: v for k, v in d.items() if k in a['attrs'].get(n, {})} for n, d in b['attrs'].items()}
-    for part in ('training', 'requires_grad', 'state_keys', 'attrs'):
+    for part in ('training', 'requires_grad', 'state_keys', 'buffer_grad', 'attrs'):
         if a[part] != b[part]:
             if isinstance(a[part], dict):
                 ks = [k for k in set(a[part]) | set(b[part]) if a[part].get(k) != b[part].get(k)]
@@ -159,7 +162,7 @@ def concrete_run(rec):
     _set_nas(method, w, rec['nas'])
     x = torch.tensor([float(Fraction(v)) for v in rec['x']], dtype=torch.float32).reshape((1,) + tuple(shape))
     torch.manual_seed(0)
-    with torch.no_grad():
+    with torch.enable_grad():
         if method != 'PIT':
             w(x)
         s0 = static_snapshot(w)
